@@ -128,7 +128,7 @@ class MovingPeaks:
 
         try:
             if len(pfunc) == npeaks:
-                self.peaks_function = pfunc
+                self.peaks_function = list(pfunc)
             else:
                 self.peaks_function = self.random.sample(pfunc, npeaks)
             self.pfunc_pool = tuple(pfunc)
